@@ -67,6 +67,23 @@ func (a *A) E(id string) (string, error) {
 	return a.Val(id), nil
 }
 
+// ExprErr is ErrExpr as a concrete error type (errors.Is(err, ErrExpr) holds).
+type ExprErr struct{ ID string }
+
+func (e *ExprErr) Error() string        { return "expression " + e.ID + " failed" }
+func (e *ExprErr) Is(target error) bool { return target == ErrExpr }
+
+// SFAny is a style-attribute value: a function returning (string, error). When it is the designated failing
+// expression the function is one that is declared with a concrete error type instead of the error interface
+// (a nil pointer of such a type is not a nil error, so the succeeding form cannot be declared that way).
+func (a *A) SFAny(id string) any {
+	a.log("E", id)
+	if id == a.FailID {
+		return func() (string, *ExprErr) { return "", &ExprErr{ID: id} }
+	}
+	return func() (string, error) { return "color:red", nil }
+}
+
 // Touch is a statement for raw Go blocks.
 func (a *A) Touch(id string) { a.log("G", id) }
 
